@@ -42,7 +42,8 @@ var payloadKinds = []string{"valid", "nostore", "zerostore", "noregion", "startk
 type op struct {
 	K     string // boot begin finish isboot reload stop meminit membegin memfinish wrong
 	T     int    `json:",omitempty"`
-	Wrong bool   `json:",omitempty"` // request header carries a different cluster id
+	Wrong bool   `json:",omitempty"` // (old replays) same as Hdr "wrong"
+	Hdr   string `json:",omitempty"` // request header: "" right cluster id, "nil" no header at all, "zero" id 0, "wrong" another id
 	PK    string `json:",omitempty"` // payload kind
 	N     int    `json:",omitempty"` // payload number: store 1000+N, region 2000+N, peer 3000+N
 	Out   int    `json:",omitempty"` // 0 Ok 1 ErrNotApplied 2 ErrApplied
@@ -120,11 +121,23 @@ func (o op) payloadCoq() string {
 	return "(Payload " + store + " " + region + ")"
 }
 
-func hidCoq(wrong bool) string {
-	if wrong {
-		return "8%Z"
+func (o op) hdr() string {
+	if o.Hdr == "" && (o.Wrong || o.K == "wrong") {
+		return "wrong"
 	}
-	return "7%Z"
+	return o.Hdr
+}
+
+func hdrCoq(h string) string {
+	switch h {
+	case "nil":
+		return "None"
+	case "zero":
+		return "(Some 0%Z)"
+	case "wrong":
+		return "(Some 8%Z)"
+	}
+	return "(Some 7%Z)"
 }
 
 var outc = []string{"Ok", "ErrNotApplied", "ErrApplied"}
@@ -132,9 +145,9 @@ var outc = []string{"Ok", "ErrNotApplied", "ErrApplied"}
 func (o op) coq() string {
 	switch o.K {
 	case "boot":
-		return fmt.Sprintf("OBoot %d %s %s", o.T, hidCoq(o.Wrong), o.payloadCoq())
+		return fmt.Sprintf("OBoot %d %s %s", o.T, hdrCoq(o.hdr()), o.payloadCoq())
 	case "begin":
-		return fmt.Sprintf("OBegin %d %s %s", o.T, hidCoq(o.Wrong), o.payloadCoq())
+		return fmt.Sprintf("OBegin %d %s %s", o.T, hdrCoq(o.hdr()), o.payloadCoq())
 	case "finish":
 		return fmt.Sprintf("OFinish %d %s", o.T, outc[o.Out])
 	case "isboot":
@@ -149,8 +162,8 @@ func (o op) coq() string {
 		return fmt.Sprintf("OMemBegin %d", o.M)
 	case "memfinish":
 		return fmt.Sprintf("OMemFinish %d %s", o.M, outc[o.Out])
-	case "wrong":
-		return "OWrong " + fmt.Sprintf("%q", o.H)
+	case "wrong", "call":
+		return fmt.Sprintf("OCall %q %s", o.H, hdrCoq(o.hdr()))
 	}
 	panic("bad op " + o.K)
 }
@@ -186,9 +199,15 @@ type world struct {
 	regionIDs []uint64
 }
 
-func (w *world) header(wrong bool) *pdpb.RequestHeader {
+// header builds the request header of the given class; "nil" = the request has no header message at all
+func (w *world) header(class string) *pdpb.RequestHeader {
 	id := w.x.S.ClusterID()
-	if wrong {
+	switch class {
+	case "nil":
+		return nil
+	case "zero":
+		id = 0
+	case "wrong":
 		id++
 	}
 	return &pdpb.RequestHeader{ClusterId: id}
@@ -236,7 +255,7 @@ func (w *world) startBoot(o op, park bool) string {
 		if park {
 			w.ek.Arm(who, kvx15.Park)
 		}
-		r, err := w.x.S.Bootstrap(w.ctx, o.request(w.header(o.Wrong)))
+		r, err := w.x.S.Bootstrap(w.ctx, o.request(w.header(o.hdr())))
 		w.ek.Arm(who, kvx15.Pass)
 		w.ek.Unbind()
 		w.done[t] <- bres{r, err}
@@ -301,7 +320,7 @@ func (w *world) exec(o op) string {
 		w.park[o.T] = false
 		return bootObs(<-w.done[o.T])
 	case "isboot":
-		r, err := w.x.S.IsBootstrapped(w.ctx, &pdpb.IsBootstrappedRequest{Header: w.header(false)})
+		r, err := w.x.S.IsBootstrapped(w.ctx, &pdpb.IsBootstrappedRequest{Header: w.header("")})
 		if err != nil {
 			return "BBad"
 		}
@@ -343,8 +362,8 @@ func (w *world) exec(o op) string {
 		w.mctl[o.M].Release(emodes[o.Out])
 		w.mpark[o.M] = false
 		return w.memObs(<-w.mdone[o.M])
-	case "wrong":
-		return w.callWrong(o.H)
+	case "wrong", "call":
+		return w.call(o.H, o.hdr())
 	}
 	panic("bad op")
 }
@@ -438,42 +457,114 @@ func classifyWrong(err error, notBoot bool) string {
 	return "BAccepted"
 }
 
-func (w *world) callWrong(name string) (ob string) {
-	// a handler that got past its validation may trip over the otherwise empty request: that is "accepted"
+// call invokes handler `name` with an otherwise (almost) empty request carrying a header of the given class.
+// BMismatch = refused with the cluster id mismatch error; BNotBoot = NOT_BOOTSTRAPPED answer; anything else
+// (a normal answer, another error, even a panic over the empty request) means the request got past the validation.
+func (w *world) call(name, class string) (ob string) {
 	defer func() {
 		if r := recover(); r != nil {
 			ob = "BAccepted"
 		}
 	}()
-	h := w.header(true)
-	h.SenderId = w.x.S.GetLeader().GetMemberId()
+	h := w.header(class)
+	if h != nil {
+		h.SenderId = w.x.S.GetLeader().GetMemberId()
+	}
+	return callOn(w.x.S, w.ctx, name, h)
+}
+
+func callOn(sv *server.Server, ctx context.Context, name string, h *pdpb.RequestHeader) string {
 	switch name {
 	case "Tso":
-		return classifyWrong(w.x.S.Tso(&tsoStream{fakeStream: fakeStream{ctx: w.ctx}, req: &pdpb.TsoRequest{Header: h, Count: 1}}), false)
+		return classifyWrong(sv.Tso(&tsoStream{fakeStream: fakeStream{ctx: ctx}, req: &pdpb.TsoRequest{Header: h, Count: 1}}), false)
 	case "RegionHeartbeat":
-		st := &hbStream{fakeStream: fakeStream{ctx: w.ctx}, req: &pdpb.RegionHeartbeatRequest{Header: h}}
-		err := w.x.S.RegionHeartbeat(st)
+		st := &hbStream{fakeStream: fakeStream{ctx: ctx}, req: &pdpb.RegionHeartbeatRequest{Header: h}}
+		err := sv.RegionHeartbeat(st)
 		nb := st.last != nil && st.last.GetHeader().GetError().GetType() == pdpb.ErrorType_NOT_BOOTSTRAPPED
 		return classifyWrong(err, nb)
 	case "SyncRegions":
-		return classifyWrong(w.x.S.SyncRegions(&syncStream{fakeStream: fakeStream{ctx: w.ctx}, req: &pdpb.SyncRegionRequest{Header: h,
+		return classifyWrong(sv.SyncRegions(&syncStream{fakeStream: fakeStream{ctx: ctx}, req: &pdpb.SyncRegionRequest{Header: h,
 			Member: &pdpb.Member{Name: "verif", MemberId: 1, ClientUrls: []string{"http://127.0.0.1:1"}}}}), false)
 	}
-	m := reflect.ValueOf(w.x.S).MethodByName(name)
+	m := reflect.ValueOf(sv).MethodByName(name)
 	if !m.IsValid() || m.Type().NumIn() != 2 {
 		return "BBad"
 	}
 	req := reflect.New(m.Type().In(1).Elem())
-	if f := req.Elem().FieldByName("Header"); f.IsValid() {
+	if f := req.Elem().FieldByName("Header"); f.IsValid() && h != nil {
 		f.Set(reflect.ValueOf(h))
 	}
-	out := m.Call([]reflect.Value{reflect.ValueOf(w.ctx), req})
+	out := m.Call([]reflect.Value{reflect.ValueOf(ctx), req})
 	var err error
 	if e, ok := out[len(out)-1].Interface().(error); ok {
 		err = e
 	}
 	return classifyWrong(err, false)
 }
+
+// probeUnstarted: a server that has been created but has not initialised its cluster id yet (s.clusterID == 0) must
+// not serve anything: a header-less request carries id 0 and would match. Every handler is called with no header
+// on a created, never started server; each must answer with an error (or NOT_BOOTSTRAPPED).
+func probeUnstarted(R *res.Result, ctx context.Context) {
+	cfg, err := srv15.Config()
+	if err != nil {
+		panic(err)
+	}
+	defer os.RemoveAll(cfg.DataDir)
+	sv, err := server.CreateServer(ctx, cfg)
+	srv15.Quiet()
+	if err != nil {
+		panic(err)
+	}
+	for _, name := range handlerNames(sv) {
+		ob := func() (ob string) {
+			defer func() {
+				if r := recover(); r != nil {
+					ob = "panic past the closed-server check"
+				}
+			}()
+			return callUnstarted(sv, ctx, name)
+		}()
+		R.Count("unstarted:" + ob)
+		if ob != "refused" {
+			R.Violate("C20:request-served-before-cluster-id-is-initialised",
+				fmt.Sprintf("handler %s on a created-but-not-started server (cluster id still 0) answered a header-less request: %s", name, ob), []string{name})
+		}
+	}
+}
+
+func callUnstarted(sv *server.Server, ctx context.Context, name string) string {
+	var err error
+	switch name {
+	case "Tso":
+		err = sv.Tso(&tsoStream{fakeStream: fakeStream{ctx: ctx}, req: &pdpb.TsoRequest{Count: 1}})
+	case "RegionHeartbeat":
+		st := &hbStream{fakeStream: fakeStream{ctx: ctx}, req: &pdpb.RegionHeartbeatRequest{}}
+		err = sv.RegionHeartbeat(st)
+		if st.last != nil && st.last.GetHeader().GetError().GetType() == pdpb.ErrorType_NOT_BOOTSTRAPPED {
+			return "refused"
+		}
+	case "SyncRegions":
+		err = sv.SyncRegions(&syncStream{fakeStream: fakeStream{ctx: ctx}, req: &pdpb.SyncRegionRequest{
+			Member: &pdpb.Member{Name: "verif", MemberId: 1, ClientUrls: []string{"http://127.0.0.1:1"}}}})
+	default:
+		m := reflect.ValueOf(sv).MethodByName(name)
+		out := m.Call([]reflect.Value{reflect.ValueOf(ctx), reflect.New(m.Type().In(1).Elem())})
+		if e, ok := out[len(out)-1].Interface().(error); ok {
+			err = e
+		}
+	}
+	if err != nil {
+		return "refused"
+	}
+	return "answered without error"
+}
+
+// handlers that are harmless to call with the RIGHT cluster id and an empty request (reads, or refusals for other reasons)
+var safeWithRightID = []string{"IsBootstrapped", "GetStore", "GetRegion", "GetRegionByID", "GetPrevRegion", "GetAllStores", "GetGCSafePoint",
+	"GetClusterConfig", "GetMembers", "GetOperator", "ScanRegions", "AllocID", "Tso", "RegionHeartbeat"}
+
+var foreignClasses = []string{"nil", "zero", "wrong"}
 
 // ---------- view ----------
 func (w *world) view() string {
@@ -573,6 +664,14 @@ func (w *world) drain(c *caseRec) {
 }
 
 // ---------- generators ----------
+// pickHdr: the header class of a Bootstrap request; `foreign` percent are spread over none / id 0 / another id
+func pickHdr(r *rng.R, foreign int) string {
+	if r.Pct(foreign) {
+		return foreignClasses[r.Intn(3)]
+	}
+	return ""
+}
+
 func pickPayload(r *rng.R, malformed int) string {
 	if r.Pct(malformed) {
 		return payloadKinds[1+r.Intn(len(payloadKinds)-1)]
@@ -599,15 +698,15 @@ func (w *world) genCase(r *rng.R, kind int, maxOps int) caseRec {
 			}
 		}
 		bootOp := func() bool {
-			switch r.Pick(22, 30, 26, 8, 7, 3, 4) {
+			switch r.Pick(22, 30, 26, 8, 7, 3, 8) {
 			case 0:
 				if len(idle) > 0 {
-					w.step(&c, op{K: "boot", T: idle[r.Intn(len(idle))], PK: pickPayload(r, malformed), Wrong: r.Pct(6)})
+					w.step(&c, op{K: "boot", T: idle[r.Intn(len(idle))], PK: pickPayload(r, malformed), Hdr: pickHdr(r, 14)})
 					return true
 				}
 			case 1:
 				if len(idle) > 0 {
-					w.step(&c, op{K: "begin", T: idle[r.Intn(len(idle))], PK: pickPayload(r, malformed), Wrong: r.Pct(4)})
+					w.step(&c, op{K: "begin", T: idle[r.Intn(len(idle))], PK: pickPayload(r, malformed), Hdr: pickHdr(r, 10)})
 					return true
 				}
 			case 2:
@@ -625,8 +724,12 @@ func (w *world) genCase(r *rng.R, kind int, maxOps int) caseRec {
 				w.step(&c, op{K: "stop"})
 				return true
 			default:
-				hs := handlerNames(w.x.S)
-				w.step(&c, op{K: "wrong", H: hs[r.Intn(len(hs))]})
+				if r.Pct(25) {
+					w.step(&c, op{K: "call", H: safeWithRightID[r.Intn(len(safeWithRightID))]})
+				} else {
+					hs := handlerNames(w.x.S)
+					w.step(&c, op{K: "call", H: hs[r.Intn(len(hs))], Hdr: foreignClasses[r.Intn(3)]})
+				}
 				return true
 			}
 			return false
@@ -687,19 +790,32 @@ func directed(handlers []string) [][]op {
 	for _, k := range payloadKinds[1:] {
 		mal = append(mal, op{K: "boot", T: 0, PK: k})
 	}
-	mal = append(mal, op{K: "boot", T: 1, PK: "valid", Wrong: true}, op{K: "boot", T: 1, PK: "valid"})
+	mal = append(mal, op{K: "boot", T: 1, PK: "valid", Hdr: "wrong"}, op{K: "boot", T: 1, PK: "valid", Hdr: "nil"}, op{K: "boot", T: 1, PK: "valid", Hdr: "zero"}, op{K: "boot", T: 1, PK: "valid"})
 	for _, k := range payloadKinds[1:] {
 		mal = append(mal, op{K: "boot", T: 0, PK: k})
 	}
 	all = append(all, mal)
-	// every handler with a mismatching cluster id: before bootstrap and after
+	// the request-header dimension: every handler with no header / id 0 / another id, the harmless ones also with the
+	// right id - before bootstrap and after; Bootstrap and IsBootstrapped themselves in every class
 	var wr []op
-	for _, h := range handlers {
-		wr = append(wr, op{K: "wrong", H: h})
+	sweep := func() {
+		for _, h := range handlers {
+			for _, c := range foreignClasses {
+				wr = append(wr, op{K: "call", H: h, Hdr: c})
+			}
+		}
+		for _, h := range safeWithRightID {
+			wr = append(wr, op{K: "call", H: h})
+		}
+	}
+	sweep()
+	for _, c := range foreignClasses {
+		wr = append(wr, op{K: "boot", T: 0, PK: "valid", Hdr: c}, op{K: "begin", T: 1, PK: "valid", Hdr: c}, op{K: "boot", T: 0, PK: "nostore", Hdr: c})
 	}
 	wr = append(wr, op{K: "boot", T: 0, PK: "valid"})
-	for _, h := range handlers {
-		wr = append(wr, op{K: "wrong", H: h})
+	sweep()
+	for _, c := range foreignClasses {
+		wr = append(wr, op{K: "boot", T: 2, PK: "valid", Hdr: c})
 	}
 	all = append(all, wr)
 	return all
@@ -722,11 +838,11 @@ func (w *world) realLeaderChangeAndRestart(caseNo int) *srv15.Srv {
 			time.Sleep(20 * time.Millisecond)
 		}
 		w.x = x
-		r, err := x.S.IsBootstrapped(w.ctx, &pdpb.IsBootstrappedRequest{Header: w.header(false)})
+		r, err := x.S.IsBootstrapped(w.ctx, &pdpb.IsBootstrappedRequest{Header: w.header("")})
 		if err != nil || !r.GetBootstrapped() {
 			w.R.Violate("C20:bootstrap-state-lost:"+what, fmt.Sprintf("IsBootstrapped = %v, %v after %s", r.GetBootstrapped(), err, what), c)
 		}
-		r2, err := x.S.Bootstrap(w.ctx, op{K: "boot", PK: "valid", N: 77}.request(w.header(false)))
+		r2, err := x.S.Bootstrap(w.ctx, op{K: "boot", PK: "valid", N: 77}.request(w.header("")))
 		if ob := bootObs(bres{r2, err}); ob != "BAlready" && ob != "BConflict" {
 			w.R.Violate("C20:bootstrapped-twice:"+what, "a Bootstrap request after "+what+" was answered "+ob, c)
 		}
@@ -805,6 +921,9 @@ func main() {
 	} else if v, _ := typeutil.BytesToUint64(r.Kvs[0].Value); v != x.S.ClusterID() {
 		R.Violate("C20:server-cluster-id-differs-from-stored", fmt.Sprintf("Server.ClusterID()=%d, stored %d", x.S.ClusterID(), v), nil)
 	}
+	if *replay == "" {
+		probeUnstarted(R, w.ctx)
+	}
 	handlers := handlerNames(x.S)
 	R.Notes = append(R.Notes, "handlers exercised with a mismatching cluster id: "+strings.Join(handlers, " "))
 
@@ -822,9 +941,10 @@ func main() {
 			R.Count("obs:" + ob)
 			if o.K == "boot" || o.K == "begin" {
 				R.Count("payload:" + o.PK)
-				if o.Wrong {
-					R.Count("header:mismatching-cluster-id")
-				}
+				R.Count("boot-header:" + map[string]string{"": "right", "nil": "none", "zero": "id-0", "wrong": "other-id"}[o.hdr()])
+			}
+			if o.K == "call" || o.K == "wrong" {
+				R.Count("call-header:" + map[string]string{"": "right", "nil": "none", "zero": "id-0", "wrong": "other-id"}[o.hdr()])
 			}
 			switch ob {
 			case "BOk", "BStarted", "BId":
